@@ -448,6 +448,7 @@ ObsFlush(o, e) ==
              \cup (IF \E i \in 1..Len(pk) : pk[i].bytes > MAXPKT \/ pk[i].kind \in {"BAD", "PANIC"} THEN {<<"C13", "Renet">>} ELSE {})
              \cup (IF e.st1.reason = "PacketSerialization" /\ e.st0.reason # "PacketSerialization" THEN {<<"C13", "Renet">>} ELSE {})
              \cup (IF Want(o, {"C08"}) /\ ~AckSoundOK(o, ek, pk) THEN {<<"C08", "AckSound">>} ELSE {})
+             \cup (IF "pendok" \in DOMAIN e /\ ~e.pendok THEN {<<"C16", "AckSet">>} ELSE {})
              \cup (IF e.st0.status = "Disc" /\ Len(pk) > 0 THEN {<<"C12", "Absorbing">>} ELSE {})
              \cup (IF "C15" \in Props(o) /\ Alive(e.st0.status) /\ Alive(e.st1.status) /\ ~PromptOK(o, e, t) THEN {<<"C15", "Prompt">>} ELSE {})
              \cup (IF "C14" \in Props(o) /\ ~UnrelWholeOK(o, e, nfl) THEN {<<"C14", "UnreliableWhole">>} ELSE {})
@@ -543,6 +544,8 @@ Dispatch(o, e) ==
       [] e.ev = "api"       -> ObsApi(o, e)
       [] e.ev = "get_event" -> ObsGetEvent(o, e)
       [] e.ev = "bcast"     -> ObsBcast(o, e)
+      [] e.ev = "rt"        -> FlagIf(o, ~e.ok, <<"C16", "RoundTrip">>)
+      [] e.ev = "re"        -> FlagIf(o, e.decodable /\ ~e.ok, <<"C16", "Reencode">>)
       [] OTHER              -> o
 
 \* diagnostics attached to a flagged event (not part of any verdict)
